@@ -20,10 +20,11 @@ func run(c *lib.Ctx) {
 		"three headers [ignored + ':' value + plain] / three headers [ignored + ': ' value + ':' value]} x {UA set/unset} x " +
 		"{redirector flag} x {response headers none / four incl. ':' and ': ' values} x {POST/GET/PUT/HEAD} x {each configured URI exact / " +
 		"strict prefix / plus suffix, '/', unlisted path} x {UA right/wrong/truncated/extended/missing} x {X-Forwarded-For yes/no} x " +
-		"{peer IPv4/IPv6} x {each checked header right / other-case name / wrong / truncated / extended / missing; ignored header right/wrong/missing} " +
+		"{each checked header right / other-case name / wrong / truncated / extended / missing; ignored header right/wrong/missing} " +
 		"is sent in-process through the started listener's own engine (configurations are reached through ListenerStart for the first and " +
-		"ListenerEdit for every further one); requests the reference predicate rejects carry a valid registration, check-in or unknown-agent " +
-		"package in rotation, requests it admits are sent once with each of the three. Distinct counts POST cells and those non-POST cells that " +
+		"ListenerEdit for every further one). Every cell the reference predicate admits is sent with each of {peer IPv4, IPv6} x {valid " +
+		"registration, check-in of a live agent, unknown-agent package}; over the cells it rejects peer and body kind rotate in the quick tier " +
+		"and are crossed in as well in the thorough tier. Distinct counts POST cells and those non-POST cells that " +
 		"would match the profile but for the method; TCP and edit phases draw (configuration, request) pairs from the same product with the " +
 		"seeded generator. Only unambiguous requests are generated: values are equal or clearly different (never case-only variants of values), " +
 		"query strings only where the configured URI has one or no URI is configured.")
@@ -142,17 +143,31 @@ func productConfig(c *lib.Ctx, e *env, l *lst, f cfgFeat, cfg Cfg, cellIdx *int,
 			admitted = append(admitted, adm{rf, idx})
 			return
 		}
-		rq.Body = bodyKinds[idx%len(bodyKinds)]
-		lab := f.String() + "|" + rf.label(pv)
-		k := caseFor(e, l, rq, "inproc", lab)
-		o := e.eval(l, k)
-		if o.reached {
-			reachedInPass++
+		// quick: peer and body kind rotate over the rejected cells; thorough: crossed in
+		variants := [][2]int{{(idx / len(bodyKinds)) % len(peers), idx % len(bodyKinds)}}
+		if c.Thorough() {
+			variants = variants[:0]
+			for p := range peers {
+				for b := range bodyKinds {
+					variants = append(variants, [2]int{p, b})
+				}
+			}
 		}
-		if rq.Method == "POST" || (len(fails) == 1 && fails[0].Check == "method") {
-			c.Distinct(lab)
+		for _, v := range variants {
+			rf.Peer = v[0]
+			rq := rf.build(cfg, pv)
+			rq.Body = bodyKinds[v[1]]
+			lab := f.String() + "|" + rf.label(pv) + "|" + rq.Body
+			k := caseFor(e, l, rq, "inproc", lab)
+			o := e.eval(l, k)
+			if o.reached {
+				reachedInPass++
+			}
+			if rq.Method == "POST" || (len(fails) == 1 && fails[0].Check == "method") {
+				c.Distinct(lab)
+			}
+			c.SampleSome(20011, func() any { return map[string]any{"case": k, "oracle_admit": false, "reached_agent_layer": o.reached} })
 		}
-		c.SampleSome(20011, func() any { return map[string]any{"case": k, "oracle_admit": false, "reached_agent_layer": o.reached} })
 	})
 	after := e.snapshot()
 	c.Observe("rejected-batches-snapshotted", 1)
@@ -163,14 +178,17 @@ func productConfig(c *lib.Ctx, e *env, l *lst, f cfgFeat, cfg Cfg, cellIdx *int,
 				Observed: observe.Diff(before, after)})
 	}
 	for _, a := range admitted {
-		for _, bk := range bodyKinds {
-			rq := a.rf.build(cfg, pv)
-			rq.Body = bk
-			lab := f.String() + "|" + a.rf.label(pv) + "|" + bk
-			k := caseFor(e, l, rq, "inproc", lab)
-			o := e.eval(l, k)
-			c.Distinct(lab)
-			c.SampleSome(997, func() any { return map[string]any{"case": k, "oracle_admit": true, "reached_agent_layer": o.reached} })
+		for p := range peers {
+			for _, bk := range bodyKinds {
+				a.rf.Peer = p
+				rq := a.rf.build(cfg, pv)
+				rq.Body = bk
+				lab := f.String() + "|" + a.rf.label(pv) + "|" + bk
+				k := caseFor(e, l, rq, "inproc", lab)
+				o := e.eval(l, k)
+				c.Distinct(lab)
+				c.SampleSome(997, func() any { return map[string]any{"case": k, "oracle_admit": true, "reached_agent_layer": o.reached} })
+			}
 		}
 	}
 	return n
@@ -303,10 +321,11 @@ func editPhase(c *lib.Ctx, e *env, steps int) {
 // requests over real TCP from 127.0.0.1 and ::1, one run-time edit half way.
 func tcpPhase(c *lib.Ctx, e *env, requests, perListener int) {
 	binds := []string{"0.0.0.0", "[::1]", "127.0.0.1", "[::]"}
+	lost := 0
 	for done, li := 0, 0; done < requests; li++ {
 		f := randomFeat(c, e.trustXFF)
 		cfg := f.cfg()
-		bind := binds[li%len(binds)]
+		bind := binds[(li+c.Shard)%len(binds)]
 		l, err := e.startListener(cfg, bind)
 		if err != nil {
 			c.Inconclusive("listener start: " + err.Error())
@@ -332,8 +351,14 @@ func tcpPhase(c *lib.Ctx, e *env, requests, perListener int) {
 			}
 		}
 		if !up {
-			c.Inconclusive(fmt.Sprintf("listener bound to %s:%s does not accept connections", bind, l.port))
-			done += perListener
+			// the port picked a moment ago was taken by another process in between (or the
+			// bind failed): nothing can be learnt from this listener, take another one
+			c.Observe("tcp-listener-port-lost", 1)
+			lost++
+			if lost > 8 {
+				c.Inconclusive(fmt.Sprintf("listener bound to %s:%s does not accept connections (9th failure in this worker)", bind, l.port))
+				return
+			}
 			continue
 		}
 		if !checkDecoy(c, e, l) {
